@@ -7,7 +7,8 @@ ID = "C12"
 LEVEL = "exploration"
 RULE = ("Hypothesis programs of 1-3 linked files with labels everywhere and a link expression K + sum k_i*(L_i - L_j) spelled directly, "
         "through difference symbols, through alias symbols (p = L), with >>0, <<1 ... >>1 and /2*2 wrappers, as '.link e' at any "
-        "top-level position of the first file or as a leading '. = e'; also no directive (default 1000), two directives (must be "
+        "top-level position of any linked file or as a leading '. = e'; helper symbols shadowing constants of the same name exported "
+        "by another file; also no directive (default 1000), two directives (must be "
         "address-conflict) and genuinely self-dependent bases with a non-zero net coefficient (must be recursive-definition); after a "
         "leading directive, '. = X' skips of every size 0..64 forward (exact zero fill, later labels shifted) and 1..64 backward (must "
         "be value-out-of-bounds), spelled .+k, label+k, through a symbol or as an absolute number. Oracle: reference assembler R3 with "
@@ -53,10 +54,13 @@ def c12_program(draw):
         files[path] = body
         mains.append(path)
         labels += labs
-    first = files[mains[0]]
     kind = draw(st.sampled_from(["cancel", "cancel", "cancel", "const", "none", "two", "self", "skips", "skips"]))
     K = draw(st.sampled_from([0o2000, 0o1000, 0o40000, 0o100, 0o100000, 0o600, 0o157000]))
     meta = {"kind": kind, "K": K, "diffs": 0, "skips": []}
+    # the file that carries the directive: any linked file for '.link' (the base is a property of the whole program), the first
+    # one for a leading '. =' and for the skip programs
+    linkfile = mains[0] if kind in ("skips", "none") else draw(st.sampled_from(mains + [mains[0]]))
+    first = files[linkfile]
     defs = []
 
     def label():
@@ -119,7 +123,7 @@ def c12_program(draw):
         e = build_expr(terms)
     else:
         e = ("num", K)
-    form = draw(st.sampled_from(["link", "link", "dot"]))
+    form = draw(st.sampled_from(["link", "link", "dot"])) if linkfile == mains[0] else "link"
     if kind == "none":
         pass
     elif kind == "skips" or form == "dot":
@@ -160,15 +164,20 @@ def c12_program(draw):
             meta["skips"].append(k)
     # definitions of helper symbols: anywhere at the top level of their file (first file unless stated)
     for d in defs:
-        path = d.pop("_file", mains[0])
+        path = d.pop("_file", linkfile)
         body = files[path]
         body.insert(draw(st.integers(0, len(body))), d)
+        if nfiles > 1 and draw(st.integers(0, 2)) == 0:
+            # another file exports a constant of the same name: the file's own definition takes precedence, wherever it stands
+            other = draw(st.sampled_from([m for m in mains if m != path]))
+            files[other].insert(draw(st.integers(0, len(files[other]))), {"k": "assign", "name": d["name"], "e": ("num", draw(st.sampled_from([0, 2, 0o100, 0o1000]))), "export": True})
+            meta["decoys"] = meta.get("decoys", 0) + 1
     return {"files": files, "blobs": {}, "mains": mains, "charset": "bk", "meta": meta}
 
 
 def shards(tier):
     k = 16
-    per = (2500 if tier == "quick" else 40000) // k
+    per = (8000 if tier == "quick" else 80000) // k
     return [{"part": "random", "i": i, "examples": per} for i in range(k)]
 
 
@@ -194,6 +203,9 @@ def run_shard(spec, ctx):
         nt = meta["diffs"] > 0 or any(meta["skips"])
         labels = [f"kind-{meta['kind']}", f"model-{r.kind}" + (":" + r.errors[0] if r.errors else ""), f"files-{len(prog['mains'])}"]
         labels += ["shape-" + s for s in meta.get("shapes", [])]
+        if meta.get("decoys"):
+            labels.append("decoy-export")
+        labels.append("directive-in-first-file" if not prog["mains"] or any(s["k"] == "link" for s in prog["files"][prog["mains"][0]]) or meta["kind"] == "none" else "directive-in-later-file")
         if meta["skips"]:
             labels.append("skip-forward" if all(k >= 0 for k in meta["skips"]) else "skip-backward")
         ctx.case(key, nt, labels, sample=key[:600] if ctx.evaluations % 47 == 5 else None)
